@@ -775,3 +775,79 @@ pub fn spaces_f1_cmap12(ctx: &Ctx, _base: &BaseTables) {
         ctx.merge(l);
     });
 }
+
+/// Format-1 entry index width boundary: entry indices (glyph map, feature records, entry-map records)
+/// are uint8 iff maxEntryIndex < 256. Tables with maxEntryIndex 254..=257 whose glyph map and feature
+/// map reach the top entries (max-1, max) as well as low ones.
+pub fn spaces_f1_width_boundary(ctx: &Ctx, base: &BaseTables) {
+    let thorough = ctx.run.tier == Tier::Thorough;
+    let mut defs = defs_f1();
+    for c in [B, C, D_, E] {
+        defs.push(Def { cps: DCps::Set(vec![c]), feats: DFeat::Set(vec![]), ds: DDs::Ranges(vec![]) });
+        defs.push(Def { cps: DCps::Set(vec![c]), feats: DFeat::All, ds: DDs::Ranges(vec![]) });
+    }
+    defs.push(Def { cps: DCps::Set(vec![A, B, C, D_, E, A2]), feats: DFeat::Set(vec![LIGA]), ds: DDs::Ranges(vec![]) });
+    let sds: Vec<_> = defs.iter().map(to_subset_definition).collect();
+    let pairs = subset_pairs(&defs);
+    let mut tables: Vec<T1> = vec![];
+    for max in [254u16, 255, 256, 257] {
+        let alpha = [0u16, 1, max - 1, max];
+        for code in 0..4u32.pow(5) {
+            let entry_index: Vec<u16> = (0..5).map(|k| alpha[((code >> (2 * k)) & 3) as usize]).collect();
+            if !thorough && !(entry_index[3] == max && entry_index[4] == 1) {
+                continue;
+            }
+            // (max_glyph_map_entry_index, feature map): whole range in the glyph map, or the two top
+            // entries reachable only through feature records (entry-map records near the top as well)
+            let variants: Vec<(u16, Option<Vec<FRec>>)> = vec![
+                (max, None),
+                (max - 2, Some(vec![FRec { tag: LIGA, first_new: max - 1, maps: vec![(1, 1), (0, max - 2)] }])),
+                (max - 1, Some(vec![FRec { tag: DLIG, first_new: max, maps: vec![(max - 1, max - 1)] }, FRec { tag: LIGA, first_new: max, maps: vec![(1, max - 1)] }])),
+            ];
+            for (max_gm, fm) in variants {
+                for bit in [None, Some(max), Some(1u16), Some(max - 1)] {
+                    if !thorough && bit == Some(max - 1) {
+                        continue;
+                    }
+                    let mut applied = vec![0u8; bitmap_len(max)];
+                    if let Some(b) = bit {
+                        applied[b as usize / 8] |= 1 << (b % 8);
+                    }
+                    for patch_format in [3u8, 1] {
+                        if patch_format == 1 && bit.is_some() {
+                            continue;
+                        }
+                        tables.push(T1 {
+                            compat: [1, 2, 3, 4],
+                            max_entry_index: max,
+                            max_glyph_map_entry_index: max_gm,
+                            glyph_count: 6,
+                            first_mapped_glyph: 1,
+                            entry_index: entry_index.clone(),
+                            feature_map: fm.clone(),
+                            applied: applied.clone(),
+                            template: b"p/{id}".to_vec(),
+                            patch_format,
+                            cff_off: None,
+                            cff2_off: None,
+                        });
+                    }
+                }
+            }
+        }
+    }
+    ctx.run.count("f1_tables_entry_index_width_boundary", tables.len() as u64);
+    ctx.run.bound("f1_width_boundary_max_entry_index", json!([254, 255, 256, 257]));
+    ctx.run.sample(json!({"space":"f1-width","table": tables[tables.len() / 2], "definitions": defs.len()}));
+    let (tables, defs, sds, pairs) = (&tables, &defs, &sds, &pairs);
+    let chunk = 8;
+    par_for(tables.len().div_ceil(chunk), |c| {
+        let mut l = Local::default();
+        for i in c * chunk..((c + 1) * chunk).min(tables.len()) {
+            let t = TableModel::F1(tables[i].clone());
+            let fc = FontCase { kind: "f1-width", ift: Some(&t), iftx: None };
+            check_font(ctx, base, &fc, defs, sds, pairs, &mut l);
+        }
+        ctx.merge(l);
+    });
+}
